@@ -446,6 +446,17 @@ def run(rep, tier="quick", replay=None, evidence_dir=None):
         agg = [st for _, _, st in cv.stmts() if st["s"] == "assign" and st["rv"]["r"] == "agg" and st["rv"].get("variant") == "Bytes"]
         rep.ob("C04.R4", "the header's codec value is Value::Bytes of the codec's name", len(c) == 1 and len(agg) == 1, "", cv.loc())
 
+    # ------------------------------------------------------------------ R3 (writer side) imported from C03.R3
+    import c03
+    sub = common.Report("C03", tier, 0)
+    c03.run(sub, tier=tier, collect_only=True)
+    n3 = 0
+    for o in sub.obligations:
+        if o["rule"] == "C03.R3":
+            n3 += 1
+            rep.ob("C04.R3", "[C03.R3] " + o["instance"], o["ok"], o["detail"], o["loc"])
+    rep.floor("C04.R3", "imported flush obligations (one block per flush, written once, reset afterwards)", n3, 7)
+
     # ------------------------------------------------------------------ R5 rejection inventory
     rep.rule("C04.R5", "closed inventory of the reasons for which the container reader itself rejects a file")
     with open(os.path.join(common.VERIF, "rules", "tables", "c04_rejections.toml"), "rb") as fh:
